@@ -264,20 +264,22 @@ func (t *Tokenizer) tokenizeBuffer(buf []byte, last bool) error {
 			t.num.Reset()
 			t.mode = digitMap
 			t.num.I = uint64(b - '0')
-			for i, b = range buf[off+1:] {
-				if digitMap[b] != numDigit {
-					break
+			if off+1 < len(buf) {
+				for i, b = range buf[off+1:] {
+					if digitMap[b] != numDigit {
+						break
+					}
+					t.num.I = t.num.I*10 + uint64(b-'0')
+					if math.MaxInt64 < t.num.I {
+						t.num.FillBig()
+						break
+					}
 				}
-				t.num.I = t.num.I*10 + uint64(b-'0')
-				if math.MaxInt64 < t.num.I {
-					t.num.FillBig()
-					break
+				if digitMap[b] == numDigit {
+					off++
 				}
+				off += i
 			}
-			if digitMap[b] == numDigit {
-				off++
-			}
-			off += i
 		case valNeg:
 			t.mode = negMap
 			t.num.Reset()
